@@ -135,7 +135,7 @@ pub fn check(ctx: &Ctx) -> i32 {
     ];
     let mut report = Report { violations: vec![], infra_errors: vec![] };
     let cfg = cfg_for(ctx);
-    let n = ctx.tier.pick(700, 14000);
+    let n = ctx.tier.pick(700, 40000);
     let run = |b: &[u8]| {
         let (p, _) = gen_program(b, &cfg);
         run_text(&tc, &emit_program(&p), vec![])
@@ -146,7 +146,7 @@ pub fn check(ctx: &Ctx) -> i32 {
         report.violations.push(write_replay(ctx, "program", &bytes, &f));
     }
     if report.violations.is_empty() {
-        let n2 = ctx.tier.pick(300, 6000);
+        let n2 = ctx.tier.pick(300, 20000);
         let run2 = |b: &[u8]| {
             let (p, _) = gen_program(b, &cfg);
             match adversarial_variant(&p) {
@@ -161,7 +161,7 @@ pub fn check(ctx: &Ctx) -> i32 {
         }
     }
     if report.violations.is_empty() {
-        let n3 = ctx.tier.pick(500, 10000);
+        let n3 = ctx.tier.pick(500, 40000);
         let run3 = |b: &[u8]| {
             let arch = [Arch::X86, Arch::A64, Arch::Rv][b.first().copied().unwrap_or(0) as usize % 3];
             let c = decode_lin(&lin_cfg_for(ctx, arch), b);
